@@ -7,6 +7,7 @@ import DelaunayModel.Model.ProtoCx
 import DelaunayModel.Model.Locate
 import DelaunayModel.Model.Certify
 import DelaunayModel.Model.Judge
+import DelaunayModel.Model.Gen
 import Driver.CxHandlers
 open DM
 
@@ -142,6 +143,12 @@ def runHull (c : Case) : Res :=
         match r with
         | op :: changed :: g0 :: g1 :: qs =>
           stats := s!"hull.gen.changed{changed}" :: stats
+          -- the hypothesis of gen_stale / guarded_stale_after_change, checked literally
+          match g0.toNat?, g1.toNat? with
+          | some a, some b =>
+            if !DM.Gen.stepOk ⟨changed == "1", a, b⟩ then
+              bad := s!"{op}: generation step {a} -> {b} with changed={changed} violates stepOk (the counter must never go back and must move when the structure changed)" :: bad
+          | _, _ => bad := s!"{op}: unreadable generation {g0} {g1}" :: bad
           if changed == "1" then
             if g0 == g1 then bad := s!"{op}: triangulation changed but the generation did not ({g0})" :: bad
             if !(qs.all (· == "stale")) then bad := s!"{op}: triangulation changed but hull queries answered {qs} instead of reporting staleness" :: bad
@@ -149,6 +156,15 @@ def runHull (c : Case) : Res :=
             -- unchanged: a query may answer or report staleness, consistently with the generation
             if g0 == g1 && qs.any (· == "stale") then bad := s!"{op}: generation unchanged ({g0}) but a hull query reported staleness" :: bad
             if g0 != g1 && qs.any (· == "answer") then bad := s!"{op}: generation moved {g0}->{g1} but a hull query still answered" :: bad
+        | _ => pure ()
+      -- the hull created first, queried after every later operation:
+      -- gen0 <op> <changed since creation 0|1> <generation at creation> <generation now> <q…>
+      for r in c.recsOf "gen0" do
+        match r with
+        | op :: changed :: gh :: gn :: qs =>
+          stats := s!"hull.gen0.changed{changed}" :: stats
+          if changed == "1" && qs.any (· == "answer") then
+            bad := s!"after {op}: the triangulation differs from the one the hull was created from (generation then {gh}, now {gn}) but hull queries answered {qs} instead of reporting staleness" :: bad
         | _ => pure ()
       if !bad.isEmpty then return { status := "ORACLE", detail := " ; ".intercalate (bad.reverse.take 6), stats := stats }
       return { status := "ok", stats := stats }
